@@ -71,6 +71,20 @@ def run(tier, seed):
         arity_obligations(chk, repo)
         console_obligations(chk, repo)
         shipped_listener_frames(chk, repo)
+        # run-time evaluation of the non-interference clause for every shipped listener over its documented parameter
+        # combinations (finite) on one problem per dimension: bounded in the problem, so never counted as proof - but a run
+        # whose trial sequence or result changes when the listener is attached is a failing input on the real code
+        from pyvc import runner as _r
+        try:
+            res = _r.native("native/method_oracle.py", {"mode": "c13listeners", "seed": seed}, timeout=600)
+            chk.bounded.append(dict(what="every shipped listener (console excepted: its report has its own contract) x documented "
+                                         "parameter combinations, Solve with vs. without the listener: same search information "
+                                         "and result", bound="%d listener configurations, one objective per dimension (1-D, 2-D), "
+                                                             "25 iterations" % res.get("evaluated", 0), counted_as_proof=False))
+            for f in res.get("failures", []):
+                chk.native_failures.append(f)
+        except Exception as e:
+            chk.errors.append(("shipped-listener run-time check", repr(e)[:300]))
         cons = cm.console_contracts()
         rep = verify.verify(repo, cons[1], cm.SCHEMA, [cons[0]], {}, cm.SPEC_FUNCS, inline=set(mc.INLINE), safety=True,
                             overrides=cm.OVERRIDES, timeout_ms=20000)
